@@ -12,6 +12,7 @@
 //!    "steps": [{"open": relpath, "text": t} | {"change": relpath, "text": t}
 //!              | {"request": kind, "path": relpath, "line": l, "character": c}
 //!              | {"request": "inlayHint", "path": relpath, "range": [l0, c0, l1, c1]}
+//!              | {"change": relpath, "texts": [t1, t2, ..]}   ONE didChange with several full-text contentChanges entries
 //!              | {"change_empty": relpath}                 didChange with contentChanges: [] (schema-legal; no diagnostics follow)
 //!              | {"close": relpath}                        didClose (an "open" of the same path afterwards restarts its version at 1)
 //!              | {"write_disk": relpath, "text": t}        (rewrites a file of the temp workspace; no message is sent)
@@ -580,8 +581,13 @@ async fn session(shared: Arc<Shared>, script: Value) -> Value {
             shared.push(json!({"ev": "sent", "step": i, "what": "didChange", "path": p}));
             d.notifs_sent += 1;
             d.needs_quiet = true;
+            // "texts": [t1, t2, ..]: ONE didChange carrying several (full-text) contentChanges entries (schema-legal)
+            let changes: Vec<serde_json::Value> = match st.get("texts").and_then(|t| t.as_array()) {
+                Some(ts) => ts.iter().map(|t| json!({"text": t})).collect(),
+                None => vec![json!({"text": st["text"]})],
+            };
             d.send(json!({"jsonrpc": "2.0", "method": "textDocument/didChange", "params": {
-                "textDocument": {"uri": uri, "version": v}, "contentChanges": [{"text": st["text"]}]}})).await;
+                "textDocument": {"uri": uri, "version": v}, "contentChanges": changes}})).await;
         } else if let Some(kind) = st.get("request").and_then(|p| p.as_str()) {
             let p = st["path"].as_str().unwrap_or("");
             let uri = d.uri(p);
